@@ -854,6 +854,8 @@ func wrapperKindsAgree(p *Program, r *Report, m *vmModel, rule string) {
 // also takes the neighbouring value, for which the general path gives something else ("ab" * 0 is "", not "ab").
 func c05NoIdentityShortcut(p *Program, r *Report, m *vmModel) {
 	n := 0
+	ea := buildErrAnalysis(m)
+	va := buildEvalAnalysis(m)
 	for _, kind := range []string{"AddOperator", "MultiplyOperator"} {
 		h := m.handlers["op"][kind]
 		if h == nil {
@@ -906,10 +908,51 @@ func c05NoIdentityShortcut(p *Program, r *Report, m *vmModel) {
 				}
 			}
 			n++
+			// the operand returned as it is must be known to have a kind of its own: the arm is chosen by the kind the two operands
+			// have together (a string next to a number makes the string arm), the returned operand can be the other one
+			ownKind := func(v ssa.Value) bool {
+				if sv := spilledValue(v); sv != nil {
+					v = sv
+				}
+				for d := b; d != nil && d.Idom() != nil; d = d.Idom() {
+					id := d.Idom()
+					iff, ok := id.Instrs[len(id.Instrs)-1].(*ssa.If)
+					if !ok {
+						continue
+					}
+					if kc, K := kindCmp(iff.Cond); kc != nil && K != 20 && K != 22 && edgeOnly(id, 0, d) {
+						if c, ok := kc.(*ssa.Call); ok && reflectMethod(c) == "Kind" {
+							recv := c.Call.Args[0]
+							if sv := spilledValue(recv); sv != nil {
+								recv = sv
+							}
+							if recv == v || (v == nil && m.cellLoad(recv, base) == "rv") {
+								return true
+							}
+						}
+					}
+				}
+				return false
+			}
+			if last == nil && !errSet && ea != nil {
+				// nothing stored: the value cell still holds the right operand as its evaluation left it
+				ret := b.Instrs[len(b.Instrs)-1]
+				if st := ea.before[h][ret]; st != nil && st.cell == eNil && evaluatedBefore(va, h, b) {
+					k++
+					r.Check(ownKind(nil), "C05.R7", fmt.Sprintf("%s|right operand left as the result #%d", kind, k), p.Pos(instrPos(ret)), "under a test of that operand's own kind",
+						"the handler returns successfully without computing anything: the right operand itself is the result, whatever its kind (a number next to an empty string stays a number instead of becoming a string)")
+				}
+				continue
+			}
 			if last == nil || errSet || !isOperand(last.Val, 0) {
 				continue
 			}
 			k++
+			if !ownKind(last.Val) {
+				r.Fail("C05.R7", fmt.Sprintf("%s|operand returned as the result #%d has the arm's kind", kind, k), p.Pos(instrPos(last)),
+					"the handler returns an operand unchanged without having tested that operand's own kind: the arm is chosen by the kind both operands have together, so the operand returned can be the other one (\"\" + 5 gives the number 5, not the string \"5\")")
+				continue
+			}
 			exact := false
 			for d := b; d != nil && d.Idom() != nil; d = d.Idom() {
 				id := d.Idom()
@@ -1018,15 +1061,23 @@ func c05UnaryStaysInteger(p *Program, r *Report, m *vmModel) {
 // left out of the list falls into the default arm and is treated as "not a number of that class" (a host int on the left of `+`
 // is then added as an integer to a float or a string).
 func c05KindSwitchComplete(p *Program, r *Report, m *vmModel) {
+	fns := m.fns
+	if csp := p.SSAPkg("core"); csp != nil {
+		fns = append(append([]*ssa.Function{}, fns...), SrcFuncs(csp)...)
+	}
+	if n := kindSwitchesComplete(p, r, fns, "C05.R6"); n < 8 {
+		r.Undecided("C05.R6", "kind switches", "vm", fmt.Sprintf("only %d kind switches over a numeric class found", n))
+	}
+}
+
+// kindSwitchesComplete: a switch (or if-chain) over a value's kind that has arms for most kinds of a numeric class (signed,
+// unsigned, float) has arms for all of them. Returns the number of (switch, class) pairs examined.
+func kindSwitchesComplete(p *Program, r *Report, fns []*ssa.Function, rule string) int {
 	classes := []struct {
 		name  string
 		kinds []int64
 	}{{"signed integer", []int64{2, 3, 4, 5, 6}}, {"unsigned integer", []int64{7, 8, 9, 10, 11}}, {"float", []int64{13, 14}}}
 	n := 0
-	fns := m.fns
-	if csp := p.SSAPkg("core"); csp != nil {
-		fns = append(append([]*ssa.Function{}, fns...), SrcFuncs(csp)...)
-	}
 	for _, fn := range fns {
 		atoms := map[ssa.Value]map[int64]bool{}
 		var order []ssa.Value
@@ -1068,12 +1119,22 @@ func c05KindSwitchComplete(p *Program, r *Report, m *vmModel) {
 				}
 				k++
 				n++
-				r.Check(len(missing) == 0, "C05.R6", fmt.Sprintf("%s|kind switch #%d covers the %s kinds", funcName(fn), k, cl.name), p.Pos(kc.Pos()), "all kinds of the class have an arm",
+				r.Check(len(missing) == 0, rule, fmt.Sprintf("%s|kind switch #%d covers the %s kinds", funcName(fn), k, cl.name), p.Pos(kc.Pos()), "all kinds of the class have an arm",
 					fmt.Sprintf("the switch has arms for %d of the %s kinds but not for %v: a value of that kind takes the default arm and is not treated as a number of its class", have, cl.name, missing))
 			}
 		}
 	}
-	if n < 8 {
-		r.Undecided("C05.R6", "kind switches", "vm", fmt.Sprintf("only %d kind switches over a numeric class found", n))
+	return n
+}
+
+// evaluatedBefore: every path to block b has passed an operand evaluation of the handler (so the value cell holds an operand).
+func evaluatedBefore(va *evalAnalysis, h *ssa.Function, b *ssa.BasicBlock) bool {
+	evalBlocks := map[*ssa.BasicBlock]bool{}
+	for _, e := range va.events[h] {
+		evalBlocks[e.call.Block()] = true
 	}
+	if len(evalBlocks) == 0 {
+		return false
+	}
+	return !reachable(h.Blocks[0], func(x *ssa.BasicBlock) bool { return evalBlocks[x] })[b]
 }
